@@ -387,7 +387,17 @@ def Mon.step (m : Mon) (w : World) (l : Label) (w' : World) : Mon × List Vio :=
         v "C17" "noWalLine" [] s!"bus {b} finished event {e} without attempting its WAL line" else []))
   | .awaitBegin i _ => (m, late i)
   | .awaitEnd i c =>
-    (m, if !treeDone w c then
+    (m,
+     -- an in-handler await does not give up on an event that is sitting in a queue: its polling passes take one event per
+     -- bus and pass, so a queued event is reached long before the passes run out (C04); in particular an event that was
+     -- evicted from every history while still pending can be awaited like any other (C13)
+     (if !(w.ev c).signal && (buses w).any (fun b => (w.bus b).queue.contains c) then
+        v "C04" "gaveUpWhileQueued" [] s!"instance {i}: the await on event {c} returned although the event is still queued" ++
+        (if !inAnyHist w c then
+           v "C13" "evictedNotAwaitable" [] s!"instance {i}: the await on event {c}, which was evicted from the history while pending, returned although the event is still queued"
+         else [])
+      else []) ++
+     if !treeDone w c then
           v "C04" "incomplete"
             ((if f1Sig w i c then ["F1"] else []) ++ (if parStealSig w i c then ["par-steal"] else []) ++
              (if (w.ev c).signal && f4Sig w c then ["F4"] else []) ++
